@@ -659,6 +659,8 @@ func checkC19(c *Ctx) {
 	checkFormatterWithholdsNothing(c, m, fmtFns, compFns, "C19.R8")
 	c.Rule("C19.R9", "the formatter writes every character it was given: no rune is narrowed to a byte in the code reachable from Format unless a dominating test established that it is ASCII")
 	checkNoRuneNarrowing(c, "C19.R9")
+	c.Rule("C19.R10", "every escape the quoting function writes can be read back: besides the constant spellings (C19.R3) a formatted, numeric escape uses only fixed-width hex verbs (%0Nx) and its operand is bounded by 16^N-1 — by its type or by a dominating comparison — because %0N is a minimum width and a wider value would be read back as another character followed by a literal digit")
+	checkEscapeWidths(c, "C19.R10")
 }
 
 // ---------------------------------------------------------------------------
